@@ -34,6 +34,7 @@ def run(ctx, rep):
         return
     CF.check_layouts(fx, rep, "C10.layout")
     CF.check_v1_table(fx, rep, "C10.table")
+    CF.check_string_table_model(fx, rep, "C10.table")
     wv = CF.WriterView(fx, rep, "C10.writer")
     if wv.ok:
         seqs = CF.check_emission(fx, rep, "C10.writer", wv)
